@@ -67,8 +67,11 @@ namespace {
     post->checkin = in_event.checkin;
     post->checkout = out_event.checkin;
     curr->add_post(post);
-    in_event.account->add_post(post);
 
+    // add_xact() below finalizes the transaction, which is what puts each of
+    // its postings on the list of its account -- as for every other
+    // transaction.  (Doing it here as well made the account hold the posting
+    // twice: "stats", count and subcount reported two postings per session.)
     if (! context.journal->add_xact(curr.get()))
       throw parse_error(_("Failed to record 'out' timelog transaction"));
     else
